@@ -32,6 +32,8 @@ def cases(tier, seed):
     for k in range(n):
         out.append({"cls": CLASSES[k % len(CLASSES)], "k": k})
     out += [{"cls": "contracts_in_run", "k": k} for k in range(3 if tier == "quick" else 20)]
+    if tier == "thorough":
+        out.append({"cls": "repo_tests", "k": 0})
     return out
 
 
@@ -324,8 +326,42 @@ def run_in_run(ctx, rng):
     ctx.nontrivial(("in_run", int(n > 0)))
 
 
+def run_repo_tests(ctx):
+    """the repository's own tests with the contracts switched on (every MAC / MPC / MPD / MCF call they make is judged)."""
+    import json
+    import os
+    import subprocess
+    import sys
+    import tempfile
+
+    repo = os.environ.get("VERIF_REPO", "/repo")
+    verif = os.path.dirname(os.path.dirname(os.path.dirname(os.path.abspath(__file__))))
+    with tempfile.NamedTemporaryFile(suffix=".json", delete=False) as f:
+        out = f.name
+    env = dict(os.environ, PYTHONPATH=os.pathsep.join([os.path.join(repo, "src"), verif]), VERIF_CONTRACT_OUT=out, MPLBACKEND="Agg")
+    subprocess.run([sys.executable, "-m", "pytest", "-q", "-p", "no:cacheprovider", "-p", "vf.contract_plugin", "--timeout=900", "tests/unit",
+                    "tests/integration/setup/test_base_setup.py", "tests/integration/setup/test_single_setup.py"], cwd=repo, env=env,
+                   stdout=subprocess.DEVNULL, stderr=subprocess.DEVNULL, timeout=1800)
+    try:
+        rec = json.load(open(out))
+    except Exception:  # noqa: BLE001
+        ctx.inconc("contract plugin produced no record")
+        return
+    finally:
+        os.unlink(out)
+    n = sum(rec["evaluations"].values())
+    ctx.ev("contracts-active-during-repository-tests", n)
+    for b in rec["broken"][:5]:
+        ctx.fail(f"{b['contract']}:during_repository_tests", f"contract {b['contract']} broken while the repository's own tests ran, input {b['input']}")
+    ctx.nontrivial(("repo_tests", int(n > 0)))
+    ctx.add_extra("contract evaluations during the repository's tests", dict(rec["evaluations"]))
+
+
 def run_case(ctx, case):
     rng = gen.rng_of(case)
+    if case["cls"] == "repo_tests":
+        run_repo_tests(ctx)
+        return
     if case["cls"] == "sets":
         run_sets(ctx, rng)
         run_vectors(ctx, {"cls": "generic"}, rng)
